@@ -362,14 +362,68 @@ theorem retryFlushes_lazy (blocking : Bool) (last : Attempt) (n : Nat) (h : 0 < 
     obtain ⟨m, rfl⟩ : ∃ m, n = m + 1 := ⟨n - 1, by omega⟩
     simp [List.replicate_succ']
 
+
+/-! ### `leadingListed` in plain words (adopted from the independent audit, tests/C14_t2.lean) -/
+
+/-- if the attempts `i .. i+k-1` raise listed exceptions and attempt `i+k` does not (it returns, or raises an
+    exception that is not listed), the count is `k` - provided the bound lets it get that far -/
+theorem leadingListed_eq (listed : List Nat) (script : Nat → Attempt) :
+    ∀ (k b i : Nat), k < b →
+      (∀ j, j < k → ∃ c, script (i + j) = .raise c ∧ isListed listed c = true) →
+      (∀ c, script (i + k) = .raise c → isListed listed c = false) →
+      leadingListed listed script b i = k := by
+  intro k
+  induction k with
+  | zero =>
+    intro b i hb _ hstop
+    obtain ⟨b', rfl⟩ : ∃ b', b = b' + 1 := ⟨b - 1, by omega⟩
+    simp only [leadingListed]
+    cases hs : script i with
+    | ret v => rfl
+    | raise c => have := hstop c (by simpa using hs); simp [this]
+  | succ k ih =>
+    intro b i hb hl hstop
+    obtain ⟨b', rfl⟩ : ∃ b', b = b' + 1 := ⟨b - 1, by omega⟩
+    obtain ⟨c, hc, hcl⟩ := hl 0 (by omega)
+    simp only [Nat.add_zero] at hc
+    simp only [leadingListed, hc, hcl, if_true]
+    have := ih b' (i + 1) (by omega)
+      (fun j hj => by have := hl (j + 1) (by omega); simpa [Nat.add_assoc, Nat.add_comm 1 j] using this)
+      (fun c h => hstop c (by simpa [Nat.add_assoc, Nat.add_comm 1 k] using h))
+    omega
+
+/-- if all the attempts the bound allows raise listed exceptions, the count is the bound -/
+theorem leadingListed_all (listed : List Nat) (script : Nat → Attempt) :
+    ∀ (b i : Nat), (∀ j, j < b → ∃ c, script (i + j) = .raise c ∧ isListed listed c = true) →
+      leadingListed listed script b i = b := by
+  intro b
+  induction b with
+  | zero => intro i _; rfl
+  | succ b ih =>
+    intro i hl
+    obtain ⟨c, hc, hcl⟩ := hl 0 (by omega)
+    simp only [Nat.add_zero] at hc
+    simp only [leadingListed, hc, hcl, if_true]
+    have := ih (i + 1)
+      (fun j hj => by have := hl (j + 1) (by omega); simpa [Nat.add_assoc, Nat.add_comm 1 j] using this)
+    omega
+
+/-- one step of the loop: an attempt that raises an exception which is not listed ends the loop (a single
+    unfolding of `retryLoop`; the statement about `aretry` as a whole is `C14_aretry_unlisted_immediately`) -/
+theorem retryLoop_unlisted_step (listed : List Nat) (script : Nat → Attempt) (maxTries : Nat) (blocking : Bool)
+    (kind : BodyKind) (todo i cls : Nat) (hs : script i = .raise cls) (hl : isListed listed cls = false) :
+    retryLoop (α := α) listed script maxTries blocking kind (todo + 1) i =
+      ⟨.raised (.user cls i), [[attemptBlocks kind blocking (.raise cls)]], 0⟩ := by
+  simp [retryLoop, hs, hl]
+
 /-! ### every helper's observation is the one the property demands -/
 
 section obs
 variable {α : Type} (env : Env α)
 
-theorem amaxmin_varargs (isMin : Bool) (keyNone : FnObj) (a b : α) (xs : List α) :
-    amaxmin env isMin false keyNone (.elems (a :: b :: xs)) =
-      amaxmin env isMin false keyNone (.one ⟨.tuple, a :: b :: xs⟩) := by
+theorem amaxmin_varargs (isMin : Bool) (kw : ExtraKw) (keyNone : FnObj) (a b : α) (xs : List α) :
+    amaxmin env isMin kw keyNone (.elems (a :: b :: xs)) =
+      amaxmin env isMin kw keyNone (.one ⟨.tuple, a :: b :: xs⟩) := by
   simp [amaxmin, maxIterable]
 
 theorem amap_obs (s : Src α) : observe (amap env s) = expected env (.amap s) := by
@@ -405,7 +459,7 @@ theorem asift_obs (s : Src α) : observe (asift env s) = expected env (.asift s)
 
 
 theorem amaxmin_obs_src (isMin : Bool) (kn : FnObj) (kind : IterKind) (items : List α) (h : kind ≠ .nonIter) :
-    observe (amaxmin env isMin false kn (.one ⟨kind, items⟩)) =
+    observe (amaxmin env isMin .none kn (.one ⟨kind, items⟩)) =
       (if kn = .none then
         if unorderable env items then noCalls (.raised .typeError)
         else match firstExt isMin (selfKey env) items with
@@ -417,7 +471,7 @@ theorem amaxmin_obs_src (isMin : Bool) (kn : FnObj) (kind : IterKind) (items : L
   cases kn
   · cases kind <;>
       simp only [amaxmin, maxIterable, Src.iterate, selfKeys_eq, if_true, Bool.false_eq_true, if_false,
-        FnObj.isNone_none] <;>
+        FnObj.isNone_none, ExtraKw.none_bne] <;>
       first
       | (simp at h; done)
       | (cases unorderable env items <;> simp only [Bool.false_eq_true, if_false, if_true] <;>
@@ -428,23 +482,27 @@ theorem amaxmin_obs_src (isMin : Bool) (kn : FnObj) (kind : IterKind) (items : L
              cases firstExt isMin (selfKey env) items <;> rfl))
   · cases kind <;>
       simp only [amaxmin, maxIterable, amapCore, Src.iterate, Bool.false_eq_true, if_false, FnObj.isNone_fn,
-        reduceCtorEq] <;>
+        reduceCtorEq, ExtraKw.none_bne] <;>
       first
       | (simp at h; done)
       | (rcases pyExt_enumerate_cases isMin env.key items with ⟨h1, h2⟩ | ⟨p, h1, h2⟩ <;>
           simp only [h1, h2, observe, perElem, flushSizes_one, totalRuns_one])
 
-theorem amaxmin_obs (isMin badKw : Bool) (kn : FnObj) (args : MaxArgs α) :
-    observe (amaxmin env isMin badKw kn args) = expected env (.amaxmin isMin badKw kn args) := by
-  cases badKw
-  · cases args with
+/-- for every call inside the statement (`kw ≠ .dflt`) -/
+theorem amaxmin_obs (isMin : Bool) (kw : ExtraKw) (kn : FnObj) (args : MaxArgs α) (hkw : kw ≠ .dflt) :
+    observe (amaxmin env isMin kw kn args) = expected env (.amaxmin isMin kw kn args) := by
+  cases kw with
+  | dflt => exact absurd rfl hkw
+  | unknown => simp [amaxmin, expected, observe, noCalls, flushSizes_nil, totalRuns_nil]
+  | none =>
+    cases args with
     | one s =>
       obtain ⟨kind, items⟩ := s
       by_cases h : kind = .nonIter
       · subst h
         cases kn <;> simp [amaxmin, maxIterable, Src.iterate, expected, argItems, observe, noCalls, flushSizes_nil, totalRuns_nil]
       · rw [amaxmin_obs_src env isMin kn kind items h]
-        simp only [expected, argItems, h, Bool.false_eq_true, if_false]
+        simp only [expected, argItems, h, reduceCtorEq, if_false, Bool.false_and, Bool.false_eq_true, decide_false]
         rfl
     | elems xs =>
       match xs with
@@ -453,9 +511,8 @@ theorem amaxmin_obs (isMin badKw : Bool) (kn : FnObj) (args : MaxArgs α) :
         cases kn <;> simp [amaxmin, maxIterable, Src.iterate, expected, argItems, observe, noCalls, flushSizes_nil, totalRuns_nil]
       | a :: b :: xs =>
         rw [amaxmin_varargs, amaxmin_obs_src env isMin kn .tuple (a :: b :: xs) (by simp)]
-        simp only [expected, argItems, Bool.false_eq_true, if_false]
+        simp only [expected, argItems, reduceCtorEq, if_false, Bool.false_and, Bool.false_eq_true, decide_false]
         rfl
-  · simp [amaxmin, expected, observe, noCalls, flushSizes_nil, totalRuns_nil]
 
 theorem aretry_obs (m : Nat) (l : List Nat) (sc : List Attempt) (b : Bool) (k : BodyKind) :
     observe (aretry (α := α) m l sc b k) = expected env (.aretry m l sc b k) := by
